@@ -676,7 +676,8 @@ def _phenotype(rng, v):
     return _pheno_new(rng, v).phenotype(fixtures()["pg"])
 
 
-_SUS_P = {0: [1.0, 2.0, 0.5, 3.0, 1.5, 0.25, 0.75], 1: [1.0, 2.0, 0.5, 3.0, 1.5, 0.25, 0.75],
+_SUS_P = {0: [1.0, 2.0, 0.5, 3.0, 1.5, 0.25, 0.75],
+          1: [0.0] * 7,                                   # no weight anywhere (total 0: every pointer on one option)
           2: [1.0] * 7,                                   # exact ties
           3: [0.0, 2.0, 0.0, 2.0, 1.0, 0.0, 1.0],         # zero weights
           4: [1e-8, 1.0, 1e-5, 25000.0, 25000.5, 1.0, 1e-8],
@@ -729,8 +730,11 @@ def _cfg_new(clsname, decn, mate=False):
         import importlib
         cls = getattr(importlib.import_module("pybrops.breed.prot.sel.cfg." + clsname), clsname)
         fx = fixtures()
+        # variant 1 of the real-valued configurations: the all-zero contribution vector (total weight 0, the lower
+        # corner of the decision space - accepted, every cross gets the same parent)
+        zero = clsname.startswith("Real") and v % 6 == 1
         kw = dict(ncross=_CFG_NCROSS[v % 6], nparent=2, nmating=1, nprogeny=1, pgmat=fx["pg"],
-                  xconfig_decn=shared(("decn", clsname), lambda: numpy.array(decn)), rng=rng)
+                  xconfig_decn=shared(("decn", clsname, zero), lambda: numpy.array(decn) * (0.0 if zero else 1)), rng=rng)
         if mate:
             kw["xconfig_xmap"] = shared(("xmap",), lambda: numpy.array([[0, 1], [2, 3], [4, 5], [6, 7], [8, 9]]))
         c = cls(**kw)
@@ -1331,16 +1335,53 @@ def spawn_args(op):
     return getattr(numpy.random, BITGENS[op.get("bg", 0)]), op.get("sbits", 64)
 
 
-def make_gen(spec):
-    """caller-side generator from a JSON spec ["pcg", seed] | ["mt", seed] | ["rs", seed]"""
-    kind, s = spec
-    if kind == "pcg":
-        return numpy.random.Generator(numpy.random.PCG64(int(s)))
-    if kind == "mt":
-        return numpy.random.Generator(numpy.random.MT19937(int(s)))
+_BG_OF = {"pcg": "PCG64", "mt": "MT19937", "philox": "Philox", "sfc": "SFC64", "dxsm": "PCG64DXSM"}
+EXT_HIST_COMPS = ("pt.G_E_Phenotyping", "mate.TwoWayCross", "samp.tiled_choice", "samp.stochastic_universal_sampling",
+                  "cfg.RealSelectionConfiguration", "samp.axis_shuffle")     # what a caller generator did before
+
+
+def gen_checkpoint(g):
+    """the generator's stream position the way a caller checkpoints it (bit_generator.state / get_state())"""
+    return g.get_state() if isinstance(g, numpy.random.RandomState) else copy.deepcopy(g.bit_generator.state)
+
+
+def gen_restore(g, ck):
+    if isinstance(g, numpy.random.RandomState):
+        g.set_state(ck)
+    else:
+        g.bit_generator.state = ck
+
+
+def make_gen(spec, which="a"):
+    """caller-side generator from a JSON spec [kind, seed] or [kind, seed, history], kind = "pcg" | "mt" | "philox" |
+    "sfc" | "dxsm" (numpy Generator on PCG64 / MT19937 / Philox / SFC64 / PCG64DXSM) | "rs" (legacy RandomState).  The HISTORY of the generator object - how its stream
+    position was established - is part of the case:
+      absent                      created from the seed (`Generator(PCG64(seed))`)
+      {"how": "transplant"}       created WITHOUT a seed (OS entropy) and handed the state of a seeded twin through
+                                  `bit_generator.state = ...` / `set_state(...)` - a resumed simulation
+      {"how": "reused", "a": [[component, v], ...], "b": [...]}
+                                  created from the seed, checkpointed, used by the listed component calls (execution
+                                  A: list `a`, execution B: list `b`), then RESTORED to the checkpoint
+    In every form the generator enters the program in exactly the state of `Generator(BG(seed))`."""
+    kind, s = spec[0], spec[1]
+    hist = spec[2] if len(spec) > 2 and spec[2] else {}
+    how = hist.get("how", "seeded")
+    if (kind != "rs" and kind not in _BG_OF) or how not in ("seeded", "transplant", "reused"):
+        raise ValueError(spec)
     if kind == "rs":
-        return numpy.random.RandomState(int(s))
-    raise ValueError(kind)
+        g = numpy.random.RandomState(int(s))
+    else:
+        g = numpy.random.Generator(getattr(numpy.random, _BG_OF[kind])(int(s)))
+    if how == "transplant":
+        ck = gen_checkpoint(g)
+        g = numpy.random.RandomState() if kind == "rs" else numpy.random.Generator(getattr(numpy.random, _BG_OF[kind])())
+        gen_restore(g, ck)
+    elif how == "reused":
+        ck = gen_checkpoint(g)
+        for name, v in hist.get(which, []):
+            comps()[name][1](g, v)
+        gen_restore(g, ck)
+    return g
 
 
 # ------------------------------------------------------------------------------------------------
@@ -2351,7 +2392,7 @@ def exec_program(case, which, tr, env=None):
     """one execution: prior history, (set-up: build / use long-lived objects), program.
     `env` given = continue with the objects of an earlier execution (the set-up is not repeated)."""
     run_pre(case["pre_" + which])
-    ext = [make_gen(s) for s in case.get("ext", [])]
+    ext = [make_gen(s, which) for s in case.get("ext", [])]
     start = {"py": py_state(), "np": np_state()}
     setup_steps = []
     spawned = []
@@ -2464,11 +2505,14 @@ class C08(Prop):
             "apply_jitter, EMBV matrix, select() of the four decision-space kinds of plain AND mate selection protocols in its single- and multi-objective branch, with explicit and with default optimisers, "
             "the four Random*SelectionProblem factories, the constructors of all 59 concrete selection protocol classes, all prng wrappers, seed, spawn options (five bit generators, 1-128 "
             "seed bits), the second copy of meiosis in core/util/mate.py) in six argument variants each (per-item arrays, "
-            "ties and tie-rich optimisation problems, zero weights, one complete tiling set, nself 0-2, crosses with repeated "
+            "ties and tie-rich optimisation problems, zero weights, NO weight at all (all-zero weight / contribution vector), one complete tiling set, nself 0-2, crosses with repeated "
             "parents, a one-marker chromosome with inbred / fully heterozygous parents, non-PSD / PSD-but-for-rounding / "
             "unfixable matrices, Fortran order, ...) and 27 size-gated `@large` variants; calls are made with rng=None / a "
             "spawned generator / a caller generator (PCG64, MT19937 Generator or legacy RandomState - every optimiser with "
-            "all three), on components built afresh AND on long-lived objects (new / use / setrng / copy: every way of "
+            "all three; Philox / SFC64 / PCG64DXSM in random programs and for the cheap components), whose stream position was "
+            "established by seeding, by ASSIGNING the state to an unseeded generator (transplant: a resumed simulation) or by "
+            "use in other component calls - a different number in the two executions - followed by a restore to the "
+            "checkpoint, on components built afresh AND on long-lived objects (new / use / setrng / copy: every way of "
             "duplicating a class that defines its own copy semantics) built in a set-up before the re-seeding; every program "
             "is executed twice in-process after two different random prior histories (draws, foreign seeds, component "
             "calls, OS-seeded generators, cached gaussians) - with `share` the second execution continues with the objects "
@@ -2488,6 +2532,10 @@ class C08(Prop):
                "`operator scope` of a site (method of a pybrops subclass of a pymoo operator, or module-level helper referenced "
                "only from such classes) is decided by the same scan",
                "sha1 digests of canonical bytes stand for bit-identity of results and generator states",
+               "a caller generator IS its stream state (bit_generator.state / RandomState.get_state()) in the Lean model "
+               "(isolated_call_after_state_restore); that the library reads nothing else of the generator object (SeedSequence "
+               "lineage, spawn counter, identity) is established by the Spec on transplanted and on used-then-restored "
+               "generators of the explored calls only",
                "thread scheduling and BLAS non-determinism are outside the model (string-hash randomisation, pid and address "
                "space are explored by the `xproc` case: one fresh interpreter per run)"]
     ASSUMPTIONS = ["progeny names / family numbers of mating protocols come from per-object counters and are not part of the "
@@ -2563,6 +2611,12 @@ class C08(Prop):
         share = bool(case.get("share"))
         if share and case.get("ext"):
             return False
+        for e in case.get("ext", []):
+            h = e[2] if len(e) > 2 and e[2] else {}
+            for w in ("a", "b"):
+                for nm, _v in h.get(w, []):
+                    if nm not in comps() or not comps()[nm][0]:
+                        return False
         for part in ("setup", "prog"):
             for op in case.get(part, []):
                 a = op.get("rng", "glob")
@@ -2652,6 +2706,51 @@ class C08(Prop):
             if comps()[n][0]:
                 out.append({"kind": "isolated", "pre_a": [["seed", 5]], "pre_b": [["seed", 6], ["np", 3]], "ext": [["pcg", 5]],
                             "prog": [{"c": n, "rng": ["ext", 0], "v": v} for v in range(6)]})
+        # the all-zero contribution vector of the real-valued configurations (variant 1) with every kind of caller
+        # generator: function form, constructor and re-sampling of a long-lived object
+        for n in ("cfg.RealSelectionConfiguration", "cfg.RealMateSelectionConfiguration"):
+            out.append({"kind": "isolated", "pre_a": [["seed", 5], ["np", 2]], "pre_b": [["seed", 6], ["py", 4]],
+                        "ext": [["pcg", 61], ["mt", 62], ["rs", 63]],
+                        "setup": [{"new": n, "rng": ["ext", 2], "v": 1}],
+                        "prog": [{"c": n, "rng": ["ext", 0], "v": 1}, {"use": 0, "cls": n, "v": 1},
+                                 {"c": n, "rng": ["ext", 1], "v": 1}, {"c": n, "rng": ["ext", 2], "v": 0}]})
+            out.append({"kind": "repro", "pre_a": pre_a, "pre_b": pre_b, "ext": [],
+                        "prog": [{"seed": 78}] + [{"c": n, "rng": "glob", "v": v} for v in (1, 0, 1)]})
+        out.append({"kind": "isolated", "pre_a": [["seed", 5]], "pre_b": [["seed", 6], ["np", 3]], "ext": [["rs", 5], ["mt", 6]],
+                    "prog": [{"c": "samp.stochastic_universal_sampling", "rng": ["ext", v % 2], "v": v} for v in (1, 0, 1, 3)]})
+        # HISTORIES OF THE CALLER'S GENERATOR: every cheap component with an rng parameter is handed (0) a generator
+        # that was created unseeded and received its state by assignment (resumed simulation), (1) a generator that
+        # the same component used before - a different number of times in the two executions - and that was then
+        # restored to its checkpoint, (2) the legacy RandomState with a transplanted state.  In every form the
+        # generator's STATE at the call is that of a freshly seeded one, in both executions.
+        for i, n in enumerate(names):
+            if not comps()[n][0] or is_large(n) or n.startswith("opt.") or n.startswith("sel."):
+                continue
+            v = i % 6
+            out.append({"kind": "isolated", "pre_a": [["seed", 5], ["np", 2]], "pre_b": [["seed", 6], ["py", 4]],
+                        "ext": [["pcg", 300 + i, {"how": "transplant"}],
+                                [("mt", "pcg")[i % 2], 400 + i, {"how": "reused", "a": [[n, v]], "b": [[n, (v + 1) % 6], [n, v]]}],
+                                ["rs", 500 + i, {"how": "transplant"}]],
+                        "prog": [{"c": n, "rng": ["ext", j], "v": (v + j) % 6} for j in range(3)]})
+        # the remaining bit generators a caller may wrap (Philox, SFC64, PCG64DXSM): samplers, mating, phenotyping
+        for i, n in enumerate(("samp.tiled_choice", "samp.stochastic_universal_sampling", "samp.axis_shuffle", "samp.outcross_shuffle",
+                               "mate.TwoWayCross", "pt.G_E_Phenotyping", "cfg.RealSelectionConfiguration", "util.dense_cross")):
+            out.append({"kind": "isolated", "pre_a": [["seed", 5], ["np", 2]], "pre_b": [["seed", 6], ["py", 4]],
+                        "ext": [["philox", 700 + i], ["sfc", 710 + i, {"how": "transplant"}], ["dxsm", 720 + i]],
+                        "prog": [{"c": n, "rng": ["ext", j], "v": (i + j) % 6} for j in range(3)]})
+        # ... and long-lived objects holding such generators (phenotyping, mating, a sampled configuration)
+        for i, n in enumerate(("pt.G_E_Phenotyping", "mate.TwoWayCross", "cfg.SubsetSelectionConfiguration")):
+            out.append({"kind": "isolated", "pre_a": [["seed", 5], ["np", 2]], "pre_b": [["seed", 6], ["py", 4]],
+                        "ext": [[("pcg", "mt", "pcg")[i], 600 + i, {"how": "transplant"}],
+                                [("mt", "pcg", "rs")[i], 610 + i, {"how": "reused", "a": [], "b": [[n, 1], [n, 4]]}]],
+                        "setup": [{"new": n, "rng": ["ext", 0], "v": 1}, {"new": n, "rng": ["ext", 1], "v": 3}],
+                        "prog": [{"use": 0, "cls": n, "v": 1}, {"use": 1, "cls": n, "v": 3}, {"use": 0, "cls": n, "v": 5}]})
+        # a seeded program that also hands over a transplanted / re-used caller generator
+        out.append({"kind": "repro", "pre_a": pre_a, "pre_b": pre_b,
+                    "ext": [["pcg", 71, {"how": "transplant"}],
+                            ["pcg", 72, {"how": "reused", "a": [["pt.G_E_Phenotyping", 1]], "b": []}]],
+                    "prog": [{"seed": 9}, {"c": "pt.G_E_Phenotyping", "rng": ["ext", 0], "v": 5}, {"c": "pt.G_E_Phenotyping", "rng": "glob", "v": 1},
+                             {"c": "pt.G_E_Phenotyping", "rng": ["ext", 1], "v": 1}, {"c": "mate.TwoWayCross", "rng": ["ext", 0], "v": 3}]})
         # long-lived objects: every class, (a) one object used, re-seeded and used again in ONE process after
         # other activity (`share`), (b) two objects built after different prior activity and used a different
         # number of times, then both run after seed(s); (c) the generator re-assigned before the re-seeding
@@ -2748,6 +2847,8 @@ class C08(Prop):
                 for k in ("pcg", "mt", "rs"):
                     out.append({"kind": "isolated", "pre_a": [["seed", 1]], "pre_b": [["seed", 2], ["normal", 1]],
                                 "ext": [[k, 99]], "prog": [{"c": n, "rng": ["ext", 0], "v": 1}]})
+                    out.append({"kind": "isolated", "pre_a": [["seed", 1]], "pre_b": [["seed", 2], ["normal", 1]],
+                                "ext": [[k, 97, {"how": "transplant"}]], "prog": [{"c": n, "rng": ["ext", 0], "v": 2}]})
                     out.append({"kind": "repro", "pre_a": [["seed", 1]], "pre_b": [["osgen", 1]], "ext": [[k, 98]],
                                 "prog": [{"seed": 3}, {"spawn": 2}, {"c": n, "rng": ["spawned", 1], "v": 2},
                                          {"c": n, "rng": ["ext", 0], "v": 0}]})
@@ -2791,6 +2892,20 @@ class C08(Prop):
             return {}
         return {"bg": rng.randrange(len(BITGENS)), "sbits": rng.choice([1, 8, 16, 32, 48, 64, 96, 128])}
 
+    @staticmethod
+    def _ext(rng):
+        """a caller generator: kind, seed and (two in five) the history of the generator object - state received by
+        assignment, or used before (differently in the two executions) and restored to its checkpoint"""
+        e = [rng.choice(["pcg", "mt", "rs", "pcg", "mt", "rs", "philox", "sfc", "dxsm"]), rng.randint(0, 2 ** 31)]
+        r = rng.random()
+        if r < 0.2:
+            e.append({"how": "transplant"})
+        elif r < 0.4:
+            calls = lambda k: [[rng.choice(EXT_HIST_COMPS), rng.randint(0, 5)] for _ in range(k)]
+            na = rng.randint(0, 2)
+            e.append({"how": "reused", "a": calls(na), "b": calls(rng.choice([k for k in (0, 1, 2, 3) if k != na]))})
+        return e
+
     def _v(self, rng, name):
         return rng.randint(0, 2) if is_large(name) else rng.randint(0, 5)
 
@@ -2814,9 +2929,9 @@ class C08(Prop):
             share = kind == "repro" and rng.random() < 0.3
             with_objs = share or rng.random() < 0.45
             next_ = 0 if share else (rng.randint(1, 2) if rng.random() < 0.6 else 0)
-            ext = [[rng.choice(["pcg", "mt", "rs"]), rng.randint(0, 2 ** 31)] for _ in range(next_)]
+            ext = [self._ext(rng) for _ in range(next_)]
             if kind == "isolated" and not ext:
-                ext = [[rng.choice(["pcg", "mt", "rs"]), rng.randint(0, 2 ** 31)]]
+                ext = [self._ext(rng)]
             # ---- set-up: long-lived objects built (and used, re-assigned) before the re-seeding
             setup, objs = [], []                 # objs: [name, handle]
             if with_objs:
@@ -3220,7 +3335,9 @@ class C08(Prop):
                 sites |= set(st[i].get("os_sites", []))
             touched = any(st[i] and (st[i]["py0"] != st[i]["py1"] or st[i]["np0"] != st[i]["np1"]) for st in steps)
             sig["cond"] = "explicit_rng_not_isolated"
-            sig["via"] = "+".join(sorted(sites)) if sites else ("unattributed" if touched else "result_depends_on_global_state")
+            hist = any(len(e) > 2 and e[2] for e in case.get("ext", []))
+            sig["via"] = "+".join(sorted(sites)) if sites else ("unattributed" if touched else (
+                "result_depends_on_more_than_the_generator_state" if hist else "result_depends_on_global_state"))
         else:
             # entropy acquired by the first divergent step itself; earlier steps only if it acquired none
             sites = set()
@@ -3294,6 +3411,14 @@ class C08(Prop):
                 c = dict(case)
                 c["prog"] = prog[:i] + [dict(op, v=0)] + prog[i + 1:]
                 yield c
+        exts = case.get("ext", [])
+        for i, e in enumerate(exts):            # the history of a caller generator: none, then shorter
+            if len(e) > 2 and e[2]:
+                yield dict(case, ext=exts[:i] + [e[:2]] + exts[i + 1:])
+                for w in ("a", "b"):
+                    for k in range(len(e[2].get(w, []))):
+                        h = dict(e[2], **{w: e[2][w][:k] + e[2][w][k + 1:]})
+                        yield dict(case, ext=exts[:i] + [[e[0], e[1], h]] + exts[i + 1:])
 
     # ------------------------------------------------------------------ self-test mutants
     def mutants(self):
@@ -3609,6 +3734,28 @@ class C08(Prop):
         def tiled_hash_seeded(a, size=None, replace=True, p=None, rng=None):   # only ANOTHER PROCESS sees a different hash
             return orig_tiled(a, size, replace, p, numpy.random.RandomState(hash("tiled_choice") % (2 ** 32)))
 
+        # ---- round 5: inputs without any weight; the history of the caller's generator object ---------------
+        import pybrops.breed.prot.sel.cfg.RealSelectionConfiguration as rsc
+
+        def sus_uniform_fallback_drops_rng(a, p, size=None, rng=None):      # class (2): total weight 0 only (C08-e1)
+            if not p.sum() > 0.0:
+                return orig_tiled(a, size, True)
+            return orig_sus(a, p, size, rng)
+
+        def pheno_child_stream_from_lineage(self, pgmat, miscout=None, **kw):   # C08-e3: Generator.spawn() reads the
+            old = self._rng                                                   # SeedSequence lineage, not the state
+            if isinstance(old, numpy.random.Generator):
+                self._rng = old.spawn(1)[0]
+            try:
+                return orig_pheno(self, pgmat, miscout, **kw)
+            finally:
+                self._rng = old
+
+        def meiosis_child_stream_from_lineage(geno, sel, xoprob, rng):       # the same class at the mating site
+            if isinstance(rng, numpy.random.Generator):
+                rng = numpy.random.Generator(type(rng.bit_generator)(rng.bit_generator.seed_seq.spawn(1)[0]))
+            return orig_meiosis(geno, sel, xoprob, rng)
+
         def named(name, factory):
             @contextlib.contextmanager
             def cm():
@@ -3662,6 +3809,9 @@ class C08(Prop):
             ("random_real_problem_factory_ignores_rng", lambda: patch(rsp.RandomRealSelectionProblem, "from_object", classmethod(random_real_problem_global))),
             ("meiosis_global_on_one_marker_chromosome", lambda: patch(mutil, "mat_meiosis", meiosis_global_on_one_marker_chromosome)),
             ("one_protocol_constructor_drops_rng", lambda: patch(wgs.WeightedGenomicSubsetSelection, "__init__", protocol_ctor_drops_rng)),
+            ("real_configuration_uniform_fallback_without_rng_when_no_weight", lambda: patch(rsc, "stochastic_universal_sampling", sus_uniform_fallback_drops_rng)),
+            ("phenotyping_child_stream_from_generator_lineage", lambda: patch(gep.G_E_Phenotyping, "phenotype", pheno_child_stream_from_lineage)),
+            ("meiosis_child_stream_from_seed_sequence_lineage", lambda: patch(mutil, "mat_meiosis", meiosis_child_stream_from_lineage)),
         ]]
 
 
